@@ -65,11 +65,13 @@ ASSUMPTIONS = [
     "exact equality: values, shape and dtype (h5py stores f8/i8 losslessly)",
 ]
 
-VARS = ["rho", "alpha", "betaup3", "gammadown3", "mask"]
+# "tt": a user variable whose name is made of the letters of the reserved
+# keys 'it' and 't' (a tt metric component, a proper-time field)
+VARS = ["rho", "alpha", "betaup3", "gammadown3", "mask", "tt"]
 KIND = {"rho": (), "alpha": (), "betaup3": (3,), "gammadown3": (3, 3),
-        "mask": ()}
+        "mask": (), "tt": ()}
 VIDX = {"rho": 0, "alpha": 1, "betaup3": 2, "gammadown3": 3, "mask": 4,
-        "t": 6}
+        "tt": 5, "t": 6}
 VNAME = {v: k for k, v in VIDX.items()}
 RLS = [0, 1, 2, 10]
 IT_POOL = [0, 1, 2, 3, 4, 7, 12, 40]
